@@ -91,6 +91,48 @@ func ringC(pts []pt2, l geom.Layout, f ref.Filler) []ref.C {
 func closed(pts ...pt2) []pt2 { return append(append([]pt2{}, pts...), pts[0]) }
 
 func c09Run(c *engine.Ctx) {
+	// one segment whose two coordinate differences are 2^500 and more apart in magnitude (the
+	// ordinates themselves stay within 2^-400 .. 2^200), either way round, alone and inside longer
+	// lines, rings and multi-part geometries: squaring or scaling by one of the two must not overflow
+	{
+		tiny := []float64{math.Ldexp(1, -320), math.Ldexp(1, -400), 5e-324, -math.Ldexp(3, -330)}
+		huge := []float64{math.Ldexp(1, 200), -math.Ldexp(1, 150), math.Ldexp(3, 190)}
+		for _, a := range tiny {
+			for _, b := range huge {
+				for _, swap := range []bool{false, true} {
+					dx, dy := a, b
+					if swap {
+						dx, dy = b, a
+					}
+					for _, l := range []geom.Layout{geom.XY, geom.XYZM} {
+						co := func(x, y float64) ref.C {
+							c := make(ref.C, l.Stride())
+							c[0], c[1] = ref.F(x), ref.F(y)
+							for k := 2; k < len(c); k++ {
+								c[k] = 7
+							}
+							return c
+						}
+						seg := []ref.C{co(0, 0), co(dx, dy)}
+						long := []ref.C{co(1, 1), co(0, 0), co(dx, dy), co(dx, dy)}
+						ring := []ref.C{co(0, 0), co(dx, dy), co(dx, 0), co(0, 0)}
+						for _, g := range []*ref.G{
+							{Kind: ref.LineString, Layout: l, C1: seg},
+							{Kind: ref.LineString, Layout: l, C1: long},
+							{Kind: ref.LinearRing, Layout: l, C1: ring},
+							{Kind: ref.Polygon, Layout: l, C2: [][]ref.C{ring}},
+							{Kind: ref.MultiLineString, Layout: l, C2: [][]ref.C{seg, {}, long}},
+							{Kind: ref.MultiPolygon, Layout: l, C3: [][][]ref.C{{}, {ring}}},
+						} {
+							c.Count("extreme_ratio_segments", 1)
+							c09Exec(c, c09Case{G: g})
+						}
+					}
+				}
+			}
+		}
+	}
+
 	var cases []*ref.G
 	add := func(g *ref.G) { cases = append(cases, g) }
 	grid := func(n int) []pt2 {
